@@ -340,6 +340,61 @@ impl Part for EnumPositions {
     }
 }
 
+
+/// (f) the receive loop: decode repeatedly from one buffer until the decoder wants more data (or reports a framing error);
+/// every step must consume at least 4 bytes, so the loop ends after at most len/4 steps whatever the bytes are
+pub struct DecodeLoop;
+impl Part for DecodeLoop {
+    type Case = BufCase;
+    fn name(&self) -> &'static str {
+        "decode-loop-progress"
+    }
+    fn check(&self, c: &BufCase, ev: &mut Local) -> Result<(), Fail> {
+        let mode = if c.compressed { Mode::Compressed } else { Mode::Uncompressed };
+        let codec = Codec::new(mode.clone());
+        let mut b = BytesMut::from(&c.buf[..]);
+        let mut steps = 0usize;
+        let mut packets = 0usize;
+        loop {
+            let before = b.len();
+            let r = guard(|| codec.decode(&mut b)).map_err(|p| Fail::new("c04:decoder-panic", format!("{}: step {steps}: {p}", mode_name(&mode))))?;
+            match r {
+                Ok(None) => {
+                    ensure!(b.len() == before, "c04:need-more-but-buffer-changed", "step {steps}");
+                    break;
+                },
+                Err(insim::Error::IO { .. }) => break,
+                Ok(Some(_)) | Err(_) => {
+                    if matches!(r, Ok(Some(_))) {
+                        packets += 1;
+                    }
+                    ensure!(before - b.len() >= 4, "c04:no-progress", "{}: step {steps} consumed {} bytes of {before}", mode_name(&mode), before - b.len());
+                },
+            }
+            steps += 1;
+            ensure!(steps <= c.buf.len() / 4 + 1, "c04:no-progress", "{}: {steps} decode steps over a {}-byte buffer", mode_name(&mode), c.buf.len());
+        }
+        if steps >= 2 {
+            ev.nontrivial(&(c.compressed, &c.buf));
+        }
+        ev.class(match steps {
+            0 => "no-complete-frame",
+            1 => "one-step",
+            2..=5 => "2-5-steps",
+            _ => "6+-steps",
+        });
+        ev.max("steps", steps as u64);
+        ev.max("packets", packets as u64);
+        Ok(())
+    }
+    fn to_json(&self, c: &BufCase) -> Value {
+        case_json(c)
+    }
+    fn from_json(&self, v: &Value) -> Option<BufCase> {
+        case_from(v)
+    }
+}
+
 fn random_strategy() -> impl Strategy<Value = BufCase> {
     let first = prop_oneof![
         3 => 0u8..5,
@@ -426,7 +481,7 @@ fn mutation_strategy() -> impl Strategy<Value = BufCase> {
 }
 
 pub fn parts() -> Vec<Box<dyn DynPart>> {
-    vec![Box::new(RandomBytes), Box::new(Mutations), Box::new(HeaderPairs), Box::new(EnumPositions), Box::new(Regress)]
+    vec![Box::new(RandomBytes), Box::new(Mutations), Box::new(HeaderPairs), Box::new(EnumPositions), Box::new(Regress), Box::new(DecodeLoop)]
 }
 
 pub fn run(run: &mut Run) {
@@ -439,7 +494,8 @@ pub fn run(run: &mut Run) {
         and the same frame alone yields the same result (never reads beyond the frame); peak allocation <= 64 KiB + 64 x input. Generators: \
         random buffers with biased size bytes; all 256x256 (size,type) pairs x 3 tails x 2 modes (complete); bit flips / substitutions / \
         truncations / extensions / splices of reference frames of all 73 kinds; every byte value in every enum-typed, count and identifier \
-        position of every kind (complete). Non-trivial = a complete announced frame was buffered (result is a packet or a decode error)."
+        position of every kind (complete); the receive loop (decode until 'need more') over concatenated mutated frames must consume >= 4 \
+        bytes per step. Non-trivial = a complete announced frame was buffered (result is a packet or a decode error)."
         .into();
     run.assumptions = vec![
         "a framing error is an insim::Error::IO; every other error is a decode error".into(),
@@ -469,4 +525,16 @@ pub fn run(run: &mut Run) {
     // (c)
     let n = run.budget(200_000, 10_000_000);
     run.prop(&Mutations, mutation_strategy(), n);
+    // (f) receive loop over concatenations of mutated frames and random tails
+    let strat = (proptest::collection::vec(mutation_strategy(), 1..8), proptest::collection::vec(any::<u8>(), 0..40)).prop_map(|(parts, tail)| {
+        let compressed = parts[0].compressed;
+        let mut buf = vec![];
+        for p in parts {
+            buf.extend_from_slice(&p.buf);
+        }
+        buf.extend_from_slice(&tail);
+        BufCase { compressed, buf }
+    });
+    let n = run.budget(60_000, 3_000_000);
+    run.prop(&DecodeLoop, strat, n);
 }
